@@ -2,6 +2,7 @@
 # (0 copy ctor, 1 assign onto empty, 2 assign onto a non-empty mesh with its own properties and held handles, 3 self-assignment, 4 copy of a
 # copy), 2 source base, 3 pending deferred deletion (0 none, 1 last edge, 2 vertex 0), 4 chunk of the (side, mutation) alphabet, 5 oracle level
 C13_UNITS = CORE + ["FileManager/TypeNames.cc"]
+C13_MIXED_UNITS = C13_UNITS + ["Mesh/TetrahedralMeshTopologyKernel.cc", "Mesh/HexahedralMeshTopologyKernel.cc", "Mesh/TetrahedralMeshIterators.cc", "Mesh/HexahedralMeshIterators.cc"]
 def _c13_mut_count(base):
     nv, ne, nf, nc = BASE_COUNTS[base]
     return nv + ne + nf + nc + 15
@@ -35,11 +36,18 @@ PROPS["C13"] = dict(
                  "thorough": _c13_shards([0, 1], [1, 3, 4], [B_TET], [1], chunks=[0]) + _c13_shards([0, 1], [3], [B_LOWDIM], [1, 2], chunks=[0])},
          timeout={"quick": 300, "thorough": 1200}, mem_gb=6,
          bounds=_C13_BOUNDS + "; assignment onto an empty mesh, self-assignment, copy of a copy (intermediate destroyed before the checks): equality checks + first chunk of mutations (delete_vertex of vertices 0 and 1); quick also runs that chunk for the plain TopologyKernel with copy construction / assignment onto a non-empty mesh"),
+    dict(name="c13-mixed", harness="C13_mixed.cpp", entries=["harness_c13_mixed"], units=C13_MIXED_UNITS, unwind=26, unwindset=["strlen.0:64", "bcmp.0:64"], eh=False, checks="mem",
+         object_bits=13, tiers=["thorough"], shards=[{0: k, 1: p} for k in (0, 1, 2) for p in (0, 1)], timeout=1200, mem_gb=8,
+         bounds="mixed-type assignment through GeometryKernel's templated operator=: tetrahedral <- polyhedral and polyhedral <- tetrahedral (source: one tetrahedron, the latter built "
+                "through the tetrahedral kernel's add_face/add_cell overrides), hexahedral <- polyhedral (source B_LOWDIM, no cells); 0-1 pending deferred deletion; symbolic positions and "
+                "property values; target with its own vertex, shared and persistent property and held handles; after the assignment: equal snapshot/flags/positions, bottom-up oracle "
+                "level 0, persistent clones equal, then symbolic property writes + add_vertex on the target and symbolic property/position writes + add_vertex on the source with the "
+                "other side unchanged (single path per shard, no selector)"),
   ],
   assumptions=[
     "heap address order = allocation order (rt.c v_plt), std::make_shared control block typed as {refcounts, T}, std::string SSO buffer as 16 bytes, __libc_single_threaded = 1 (see C14)",
     "exceptions are not modelled in these jobs (no operation of the harness throws on its paths); allocation failure out of scope",
     "native replays suppress UBSan's vptr report for detail::Tracked<PropertyStorageBase>'s constructor/destructor downcast (harness/c14_native.h)",
-    "outside the bound: mixed-type assignment (GeometryKernel<Vec, TetrahedralMeshTopologyKernel> <- GeometryKernel<Vec, TopologyKernel> etc.), bases larger than one tetrahedron, more than one pending deletion, more than one mutation after the copy, edge/face/cell/halfedge/halfface/mesh properties, value types other than int/bool/Vec3i",
+    "outside the bound: mixed-type assignment in the quick tier (thorough: job c13-mixed), assignment of content that is illegal for the target kernel, bases larger than one tetrahedron, more than one pending deletion, more than one mutation after the copy, edge/face/cell/halfedge/halfface/mesh properties, value types other than int/bool/Vec3i",
   ],
 )
